@@ -163,3 +163,12 @@ CHECKS["C13"] = (
     "DESIGN.md#6-build-report",
 )
 NA.pop("C13", None)
+
+CHECKS["C12"] = (
+    "other",
+    "static analysis: algebraic abstract interpretation (rational identities over a symbolic triangle, point, plane and line) of the exact geometric routines; canonical-form structural rules for the ray pipeline and the two pruning boxes",
+    "Decides only the closed-form and structural clauses: planes_lines returns the point of the line on the plane; points_to_barycentric (cross and Cramer, 2D and 3D) returns coordinates that sum to one and rebuild the projection of the point; in each of the seven regions of triangles.closest_point the result is the vertex / the foot of the perpendicular on the edge line / on the plane; ray_triangle_id accepts exactly the plane hits with all barycentric coordinates in [-tol, 1 + tol], masks triangle index, ray index and location by the same masks, keeps forward hits only and takes the first hit as the smallest ray parameter; the ray box is the outward-padded AABB of two points of the same ray, clamped from below only; the proximity box is point +- (nearest referenced vertex distance + tol.merge). Which region / branch a query falls in, the general-position margins, agreement of both ray engines and with an all-triangles oracle, contains_points parity and signed distance are NOT decided.",
+    "Trusted: E3 transfer functions and sympy cancel / together; overrides of the region masks in closest_point (each region is analysed with its mask forced on); canonicalisation in sa/provenance.py; rtree / scipy cKDTree / embree as libraries.",
+    "DESIGN.md#6-build-report",
+)
+NA.pop("C12", None)
